@@ -30,8 +30,12 @@ impl Sink {
         Ok(())
     }
     fn put_str(&mut self, s: &str) -> std::fmt::Result {
-        for c in s.bytes() {
-            self.put(c)?;
+        // index loop over a literal: the bound is a constant for the verifier (an iterator loop is unrolled to the global bound)
+        let b = s.as_bytes();
+        let mut i = 0;
+        while i < b.len() {
+            self.put(b[i])?;
+            i += 1;
         }
         Ok(())
     }
@@ -128,9 +132,11 @@ fn c11_piece_letter_display_contract() {
 // ---- spec writer ---------------------------------------------------------------------------------------------------------------
 
 fn put(out: &mut [u8; 96], n: &mut usize, s: &[u8]) {
-    for c in s {
-        out[*n] = *c;
+    let mut i = 0;
+    while i < s.len() {
+        out[*n] = s[i];
         *n += 1;
+        i += 1;
     }
 }
 
